@@ -210,6 +210,8 @@ pub fn one_program<F>(
     // checker and must answer `ok` with the same number of fused sites
     writeln!(cases, "fcheck").unwrap();
     writeln!(implo, "fcheck ok {fused}").unwrap();
+    writeln!(cases, "lcheck").unwrap();
+    writeln!(implo, "lcheck ok").unwrap();
 
     // input vectors: the base (satisfying by construction unless a zero divisor was allowed),
     // then single-input perturbations
